@@ -490,6 +490,85 @@ func c16Determinism(chunk, chunks int) func(r *vp.InstResult) {
 	}
 }
 
+// c16MultiFile: one request that generates two files. The plugin must treat the files
+// independently: each file's output equals what a request for that file alone produces.
+func c16MultiFile(chunk, chunks int) func(r *vp.InstResult) {
+	return func(r *vp.InstResult) {
+		legal := legalMethods()
+		single := map[int]map[string]string{}
+		specOf := func(i int, pkg string) gen.ServiceSpec {
+			m := legal[i]
+			m.Name = "Read"
+			return gen.ServiceSpec{Pkg: pkg, Service: "Svc", Messages: []string{"Req", "Resp", "Custom"}, Methods: []gen.MethodSpec{m}}
+		}
+		alone := func(i int, pkg string) (map[string]string, error) {
+			c := &genCase{spec: specOf(i, pkg)}
+			fd := c.spec.File()
+			deps, err := gen.Deps(fd, repoDescs())
+			if err != nil {
+				return nil, err
+			}
+			res, err := gen.Run(plugin("protoc-gen-gorums"), nil, fd, deps, "")
+			if err != nil {
+				return nil, err
+			}
+			return res.Files, nil
+		}
+		k := 0
+		for i := range legal {
+			for j := range legal {
+				k++
+				if k%chunks != chunk {
+					continue
+				}
+				a, b := specOf(i, "fa"), specOf(j, "fb")
+				fa, fb := a.File(), b.File()
+				deps, err := gen.Deps(fa, repoDescs())
+				if err != nil {
+					r.Error = err.Error()
+					return
+				}
+				res, err := gen.RunMulti(plugin("protoc-gen-gorums"), nil, []*descriptorpb.FileDescriptorProto{fa, fb}, deps, "")
+				if err != nil {
+					r.Error = err.Error()
+					return
+				}
+				r.Execs++
+				label := fmt.Sprintf("two files in one request: %s then %s", legal[i].Label(), legal[j].Label())
+				if res.Exit != 0 || res.Error != "" {
+					diag, _ := res.Diagnostic()
+					addViol(r, "C16/legal-rejected", label, fmt.Sprintf("%s: rejected: %s", label, firstLine(diag)), nil)
+					continue
+				}
+				if single[i] == nil {
+					if single[i], err = alone(i, "fa"); err != nil {
+						r.Error = err.Error()
+						return
+					}
+				}
+				sb, err := alone(j, "fb")
+				if err != nil {
+					r.Error = err.Error()
+					return
+				}
+				want := map[string]string{}
+				for n, c := range single[i] {
+					want[n] = c
+				}
+				for n, c := range sb {
+					want[n] = c
+				}
+				if d, ok := sameFiles(want, res.Files); !ok {
+					addViol(r, "C16/output-depends-on-other-files", legal[i].Label()+"|"+legal[j].Label(), fmt.Sprintf("%s: the output differs from generating each file alone: %s", label, d), nil)
+				}
+				r.Outcomes["same"]++
+			}
+		}
+		r.States, r.Steps = r.Execs, r.Execs
+		r.Sample = map[string]any{"request": "files fa.proto (Read: quorumcall) and fb.proto (Read: quorumcall+async) in one CodeGeneratorRequest", "expected": "each output file byte-identical to a single-file run"}
+	}
+}
+
 func c16Zorums(r *vp.InstResult) {
 	// determinism and totality on the repository's own service definitions (dev and normal mode)
 	dirs, err := findGenDirs()
@@ -532,7 +611,7 @@ func c16Zorums(r *vp.InstResult) {
 
 func init() {
 	checks["C16"] = &check{
-		rule: "small-scope enumeration of proto service definitions fed to the plugin built from the working tree (requests built from synthesised descriptors, no protoc): (a) single-method services over the full lattice of 512 option combinations {quorumcall, async, correctable, multicast, unicast, per_node_arg, custom_return_type, client stream, server stream} x 4 message shapes {local, imported Empty in, imported Empty out, same message}; (b) two-method services over all 484 ordered pairs of the 22 legal combinations with shared and with distinct message types; (c) reserved and unusual identifier spellings for messages, services, methods, plus an enum; (d) determinism: 3 plain runs and runs of a plugin whose map ranges are routed through a controlled iteration order {sorted, reversed, rotations} on legal single / two-method services and on every proto file of the repository; oracle: legality model of doc/method-options.md - legal must be accepted and compile (go build of all emitted packages together with protoc-gen-go output against /repo), documented-illegal and reserved names must end with a diagnostic (not a Go panic), everything else must be rejected or compile; outputs byte-identical across runs and orders; an outcome is (class, plugin result class)",
+		rule: "small-scope enumeration of proto service definitions fed to the plugin built from the working tree (requests built from synthesised descriptors, no protoc): (a) single-method services over the full lattice of 512 option combinations {quorumcall, async, correctable, multicast, unicast, per_node_arg, custom_return_type, client stream, server stream} x 4 message shapes {local, imported Empty in, imported Empty out, same message}; (b) two-method services over all 484 ordered pairs of the 22 legal combinations with shared and with distinct message types; (c) reserved and unusual identifier spellings for messages, services, methods, plus an enum; (d) determinism: 3 plain runs and runs of a plugin whose map ranges are routed through a controlled iteration order {sorted, reversed, rotations} on legal single / two-method services and on every proto file of the repository; (e) all 484 ordered pairs of legal single-method files with the same method name requested in ONE CodeGeneratorRequest, each output compared with a single-file run; oracle: legality model of doc/method-options.md - legal must be accepted and compile (go build of all emitted packages together with protoc-gen-go output against /repo), documented-illegal and reserved names must end with a diagnostic (not a Go panic), everything else must be rejected or compile; outputs byte-identical across runs and orders; an outcome is (class, plugin result class)",
 		assumptions: []string{"descriptors are synthesised programmatically with gorums' extension numbers; protoc's own validation is not in the loop", "'compiles' = go build of the generated package with the protoc-gen-go output of the same file against /repo's runtime"},
 		gen: func(tier string) []instance {
 			var out []instance
@@ -555,6 +634,9 @@ func init() {
 				out = append(out, instance{fmt.Sprintf("determinism/chunk%d-of-%d", c, dc), c16Determinism(c, dc)})
 			}
 			out = append(out, instance{"determinism/repository-protos", c16Zorums})
+			for c := 0; c < 4; c++ {
+				out = append(out, instance{fmt.Sprintf("multi-file-request/chunk%d-of-4", c), c16MultiFile(c, 4)})
+			}
 			return out
 		},
 	}
